@@ -122,6 +122,11 @@ func (s *Session) Deliver(out []byte, incoming []byte, now time.Time) (bool, []b
 		if !s.rp.ValidateCounter(uint64(nonce), MaxNonce) {
 			return false, nil, nil
 		}
+		if s.isInit && s.hsIndex < 4 {
+			// The handshake is completing through application data instead of RespDone.
+			// The outbound counter must still skip the values reserved for the handshake.
+			s.nonce = noncePostHandshake
+		}
 		s.hsIndex = 8 // successfully received a packet
 		return true, out, nil
 	}
